@@ -117,7 +117,8 @@ DIR_MODES = {"ma": 0o755, "mb": 0o700}
 NAME_VARIANTS = {
     "plain": ["file%d.txt", "Makefile%d", "lib%d.so.1"],
     "unicode": ["ünïcödé-%d-日本語", "\U0001F642-%d-ελληνικά",
-                "%d-" + "ж" * 70, "ẹ́-%d-שלום"],
+                "%d-" + "ж" * 70, "ẹ́-%d-שלום",
+                "not-utf8-\udcff\udcfe-%d-\udce9"],          # raw bytes ff fe / e9 (surrogateescape)
     "shell": ["$(touch PWNED)-%d", "`id`;%d", "a&b|c>%d<d", "*?[%d]", "q'uo\"te\\%d", "#%d!~{}()=%%"],
     "dash": ["-rf%d", "--%d", "-%d", "--help=%d"],
     "space": [" lead%d", "trail%d ", "in  ner%d", "tab\t%d", "new\nline%d"],
@@ -637,8 +638,17 @@ def run_hostile(c, vsn, members, result_hash):
     return res
 
 
+_minimal_known = []
+
+
 def minimize(c, vsn, members):
     """1-minimal subsequence that still escapes (real executions); names the input class of a violation"""
+    def is_subseq(a, b):
+        it = iter(b)
+        return all(any(x == y for y in it) for x in a)
+    for known in _minimal_known:       # a subsequence already shown (by real executions) to escape on its own
+        if is_subseq(known, members):
+            return known, 0
     cur, n = list(members), 0
     changed = True
     while changed and len(cur) > 1:
@@ -649,6 +659,8 @@ def minimize(c, vsn, members):
             if run_hostile(c, vsn, cand, b"\0" * 20)["locs"]:
                 cur, changed = cand, True
                 break
+    _minimal_known.append(cur)
+    _minimal_known.sort(key=lambda m: (len(m), seq_name(m)))
     return cur, n
 
 
@@ -849,9 +861,14 @@ def corrupt_task(arg):
     art = c.artifact_path(bid)
     if os.path.exists(art):
         os.unlink(art)
-    runInEventLoop(c.arch.uploadPackage(step, bid, audp, src_ws, executor=Inline()))
-    with open(art, "rb") as f:
-        data = f.read()
+    try:
+        runInEventLoop(c.arch.uploadPackage(step, bid, audp, src_ws, executor=Inline()))
+        with open(art, "rb") as f:
+            data = f.read()
+    except Exception as e:      # packing a generated tree must work (also reported by the round trip part)
+        out["viol"].append(("roundtrip:pack-failed:%s" % type(e).__name__,
+                            {"case": {"kind": "tree", "nodes": nodes, "i": i}, "error": str(e)[:300]}))
+        return _ret(out)
     out["len"] = len(data)
     want = walk(src_ws)
     rng = random.Random("%d-corrupt-%d" % (seed, i))
@@ -884,6 +901,9 @@ def corrupt_task(arg):
 
     if feed(("none", "intact"), "intact", data) != "accepted":
         out["viol"].append(("roundtrip:valid-artifact-rejected", {"case": {"kind": "tree", "nodes": nodes, "i": i}}))
+        return _ret(out)
+    if out["viol"]:     # the intact artifact does not reproduce the tree: a round trip failure, corrupting it says nothing
+        out["viol"] = [("roundtrip:archive:intact-artifact-differs", out["viol"][0][1])]
         return _ret(out)
     for cls, label, blob in corruptions(data, rng, nflips, all_small):
         feed(cls, label, blob)
@@ -935,7 +955,8 @@ def exhaustive(cfg, quick, workdir):
         text = f.read()
     cur = cfg
     for _ in range(len(INVARIANTS) + 1):
-        res = tlc.run("ArtifactPack", cur, workers=(1 if quick else 8), coverage=True, timeout=1500, heap="3g",
+        res = tlc.run("ArtifactPack", cur, workers=(1 if quick else min(8, int(os.environ.get("VF_WORKERS", "16") or 16))), coverage=True,
+                      timeout=15000, heap="3g",
                       env={"JAVA_TOOL_OPTIONS": "-XX:ParallelGCThreads=2 -XX:CICompilerCount=2"})
         if not res.violated:
             return res, found
@@ -964,7 +985,7 @@ def replay_one(path):
         beh = [{"hm": "na", "dec": "rej_extract", "touched": [], "ws": {}}]
         r = hostile_task((0, case["vsn"], case["members"], beh, seed))
     else:
-        r = corrupt_task((case["i"], case["nodes"], seed, 8, True))
+        r = corrupt_task((case["i"], case["nodes"], seed) + ((4, False) if rec.get("tier") == "quick" else (8, True)))
     sigs = sorted({s for s, _ in r["viol"]})
     os.dup2(_saved_stdout, 1)
     print("replay of %s: %s" % (rec["signature"], "REPRODUCED" if rec["signature"] in sigs else "not reproduced"), flush=True)
@@ -1003,7 +1024,8 @@ def main():
         "archive executor jobs run inline in the main thread of the worker",
         "extraction runs with the privileges of the harness (root here: mknod/chown succeed); the model allows both",
     ]
-    pool = mp.get_context("fork").Pool(16)
+    nworkers = int(os.environ.get("VF_WORKERS", "16") or 16)
+    pool = mp.get_context("fork").Pool(nworkers)
     tdir = tempfile.mkdtemp(prefix="tlc", dir=ROOT)
     tp = ThreadPoolExecutor(8)
     gen_cfg = "ArtifactPack_gen.cfg" if quick else "ArtifactPack_gen_thorough.cfg"
@@ -1015,9 +1037,9 @@ def main():
         pcfg = os.path.join(tdir, "gen-%s.cfg" % part)
         with open(pcfg, "w") as f:
             f.write(re.sub(r"Parts = \{[^}]*\}", 'Parts = {"%s"}' % part, gen_text))
-        f_gen.append(tp.submit(tlc.run, "ArtifactPack", pcfg, workers=1, timeout=1500, heap="4g", env=jenv))
+        f_gen.append(tp.submit(tlc.run, "ArtifactPack", pcfg, workers=1, timeout=15000, heap="4g", env=jenv))
     f_exh = tp.submit(exhaustive, "ArtifactPack.cfg" if quick else "ArtifactPack_thorough.cfg", quick, tdir)
-    f_reach = {r: tp.submit(tlc.run, "ArtifactPack", "ArtifactPack_reach_%s.cfg" % r, workers=1, timeout=600, heap="1g", env=jenv)
+    f_reach = {r: tp.submit(tlc.run, "ArtifactPack", "ArtifactPack_reach_%s.cfg" % r, workers=1, timeout=6000, heap="1g", env=jenv)
                for r in REACH}
     try:
         rc = _run(a, quick, rep, pool, f_gen, f_exh, f_reach)
